@@ -957,6 +957,7 @@ def _explore(ctx, q):
     timed(sq, "sequences-in-one-process", transitions=sum(len(c["ops"]) for c in sq))
     ec = extract_cases(q)
     timed(ec, "extract")
+    ctx.run_under(MOD, "run_case", ec[:2] + ec[-1:], ("-O",))   # interpreter started with -O (asserts stripped)
     gc = glob_cases(q)
     timed(gc, "extract-file-selection")
     qc = qha_writer_cases()
